@@ -519,3 +519,21 @@ func goScalar(v value) any {
 	}
 	return toString(v)
 }
+
+func init() {
+	E := func(name string, f externalFn) {
+		externals[name] = func(fr *frame, args []value) value {
+			IntrinsicHits[name]++
+			return f(fr, args)
+		}
+	}
+	// strings.Builder uses unsafe to avoid a copy; model it on the value level.
+	E("(*strings.Builder).copyCheck", func(fr *frame, args []value) value { return nil })
+	E("(*strings.Builder).String", func(fr *frame, args []value) value {
+		b := (*(args[0].(*value))).(structure)
+		buf, _ := b[1].([]value)
+		return mkString(append([]value{}, buf...))
+	})
+	E("internal/abi.NoEscape", func(fr *frame, args []value) value { return args[0] })
+	E("internal/abi.Escape", func(fr *frame, args []value) value { return args[0] })
+}
